@@ -24,6 +24,16 @@ ZERO_WIDTH = ['def f(): pass\n', 'x = f()\n', 'y = ()\n', 'z = []\n', 'lambda: 0
               'def h(a, /, b, *, c): pass\n', 'f"{a} {b!r:>{w}}"\n', 'x = a if b else c\n', 'import a.b as c, d\n', 'from . import (x as y, z)\n', 'global g, h\n', '@d\nclass K[T]: pass\n']
 
 
+def has_debug_fstring(tree):
+    """f'{x=}' : CPython gives the synthesized 'x=' Constant anomalous positions"""
+    for n in ast.walk(tree):
+        if isinstance(n, ast.JoinedStr):
+            for a, b in zip(n.values, n.values[1:]):
+                if isinstance(a, ast.Constant) and isinstance(a.value, str) and a.value.rstrip().endswith('=') and isinstance(b, ast.FormattedValue):
+                    return True
+    return False
+
+
 def extents(tree, lines):
     """[(node, path, (ln, col, end_ln, end_col))] with 0-based lines and CHARACTER columns; position-less nodes get the span of their descendants"""
     out = []
@@ -79,6 +89,10 @@ def check_program(ctx, FST, seg, label, rnd, max_edits):
     from ..base import D, S, refparse, short
     base, _ = refparse(seg)
     if base is None:
+        return
+    import re as _re
+    if has_debug_fstring(base) or (_re.search(r'=\s*(![rsa])?(:[^{}]*)?\}', seg) and _re.search(r'''[fF][rR]?['"]|[rR][fF]['"]''', seg)):
+        ctx.count('program_with_debug_fstring_skipped(CPython positions anomalous)')
         return
     try:
         toks = list(tokenize.generate_tokens(io.StringIO(seg).readline))
